@@ -21,6 +21,15 @@ CLAIMED = {
                      "state equals the state the uninterrupted run has there, hence the resumed run is the suffix; "
                      "correspondence compares resumed and fresh runs of the real code.",
                 ref="2 C04/C05/C06", note="as C04", technique="Coq proof (resume = suffix, from model = spec) + differential run fresh vs resumed"),
+    "C16": dict(text="Coq theorems for all label layouts / parameters / draw sequences: bulk accessor = map of the per-sample "
+                     "accessor for each of the eight label-rewriting wrappers, labels within the announced class shape (or -1 where "
+                     "allowed), all-gather permutation shape, smoothing/one-hot vectors over Q are distributions with the original "
+                     "class as argmax. Models (per-sample and bulk functions mirrored separately) tied to /repo by running the real "
+                     "wrappers with recorded draws on generated layouts every run.",
+                ref="2 C16 / 7.3", note="Coq kernel+vm_compute; hand-written model coq/C16/Model.v; torch argmax/topk/softmax, einops "
+                "rearrange and np.argsort semantics trusted (decisions shipped by the harness); 'other data untouched' checked on "
+                "the real objects only",
+                technique="Coq proofs (list induction, QArith) over a hand-written model + vm_compute correspondence with the real wrappers"),
 }
 
 ALL = ["C%02d" % i for i in range(1, 21)]
